@@ -15,8 +15,11 @@ import (
 	"errors"
 	"fmt"
 	"io"
+	"net"
+	"os"
 	"sort"
 	"strings"
+	"syscall"
 
 	"github.com/hslam/rpc"
 )
@@ -441,9 +444,14 @@ func (r *connRun) readErr(eof bool) {
 		r.readerDead = true
 		r.record("HReadErr true []", "ReadErr EOF")
 	} else {
-		r.msgs.readCh <- readItem{err: errors.New("read: boom")}
+		// whatever kind of error ends the read direction — a plain one, a reset, a link that timed out
+		// (a net.Error whose Timeout() is true), a torn frame — the connection is over
+		errs := []error{errors.New("read: boom"), &net.OpError{Op: "read", Net: "tcp", Err: syscall.ETIMEDOUT},
+			&net.OpError{Op: "read", Net: "tcp", Err: syscall.ECONNRESET}, os.ErrDeadlineExceeded, io.ErrUnexpectedEOF}
+		err := errs[r.e.Rng.Intn(len(errs))]
+		r.msgs.readCh <- readItem{err: err}
 		r.readerDead = true
-		r.record("HReadErr false "+bspec([]byte("read: boom")), "ReadErr boom")
+		r.record("HReadErr false "+bspec([]byte(err.Error())), "ReadErr "+err.Error())
 	}
 }
 
